@@ -683,6 +683,13 @@ func (env *Env) call(x *CCall) Val {
 			}
 		}
 		return Val{E: storeT(a.E, k.E, v.E), S: a.S, T: a.T}
+	case "has":
+		m := env.eval(x.Args[0])
+		if m.T == nil || !isMap(m.T) || m.S != sInt {
+			env.fail("has() needs a Go map")
+		}
+		k := env.eval(x.Args[1])
+		return Val{E: env.ex.mapHas(env.st, m, k), S: sBool, T: types.Typ[types.Bool]}
 	case "b2i":
 		return Val{E: ite(env.evalBool(x.Args[0]), "1", "0"), S: sInt, T: types.Typ[types.Int]}
 	case "fresh":
@@ -732,8 +739,9 @@ func (env *Env) call(x *CCall) Val {
 		v.T = tn.Type()
 		return v
 	}
-	// pure Go function of the package, inlined
-	if fnObj, ok := env.pkg.Scope().Lookup(name).(*types.Func); ok {
+	// pure Go function of the package, inlined (unless the first argument's type has a method of that name and the
+	// function's first parameter has a different type: then the method is meant)
+	if fnObj, ok := env.pkg.Scope().Lookup(name).(*types.Func); ok && !env.prefersMethod(fnObj, name, x) {
 		sp := env.ex.eng.Prog.Package(env.pkg)
 		if f := sp.Func(fnObj.Name()); f != nil {
 			if env.bound > 0 {
@@ -746,8 +754,50 @@ func (env *Env) call(x *CCall) Val {
 			return env.ex.specInline(f, args, env.st)
 		}
 	}
+	// Go method of the first argument's type, written Method(recv, args...), inlined
+	if len(x.Args) >= 1 {
+		recv := env.eval(x.Args[0])
+		if recv.T != nil {
+			for _, t := range []types.Type{recv.T, types.NewPointer(recv.T)} {
+				if sel := env.ex.eng.Prog.MethodSets.MethodSet(t).Lookup(env.pkg, name); sel != nil {
+					f := env.ex.eng.Prog.MethodValue(sel)
+					if f == nil || f.Blocks == nil {
+						continue
+					}
+					if env.bound > 0 {
+						env.fail("Go method %s cannot be used under a quantifier", name)
+					}
+					args := []Val{recv}
+					for _, a := range x.Args[1:] {
+						args = append(args, env.eval(a))
+					}
+					return env.ex.specInline(f, args, env.st)
+				}
+			}
+		}
+	}
 	env.fail("unknown function %s", name)
 	return Val{}
+}
+
+func (env *Env) prefersMethod(fnObj *types.Func, name string, x *CCall) bool {
+	if len(x.Args) == 0 {
+		return false
+	}
+	sig := fnObj.Type().(*types.Signature)
+	recv := env.eval(x.Args[0])
+	if recv.T == nil {
+		return false
+	}
+	if sig.Params().Len() == len(x.Args) && types.Identical(sig.Params().At(0).Type(), recv.T) {
+		return false
+	}
+	for _, t := range []types.Type{recv.T, types.NewPointer(recv.T)} {
+		if env.ex.eng.Prog.MethodSets.MethodSet(t).Lookup(env.pkg, name) != nil {
+			return true
+		}
+	}
+	return false
 }
 
 func (env *Env) specCall(sf *SpecFunc, argExprs []CExpr) Val {
